@@ -949,6 +949,78 @@ def sec_fit(R: Run, M, Affine):
             ok = all(cost([v + (dlt if i == j else 0) for j, v in enumerate(A)]) >= c0 - F(1, 10**9)
                      for i in range(6) for dlt in (F(1, 1000), F(-1, 1000)))
             R.oracle(ok, "affine-fit-not-a-minimiser", {"line": line}, f"{tuple(res_l[0])[:6]}", sig="fitaff-noisy")
+    # point sets whose spread is tiny compared with their distance from the origin (stencils around far pixels, small
+    # clusters at projected coordinates): spread x centre matrix, exactly affine data with dyadic A (every Y exactly
+    # representable), two-sided against A with a tolerance from the conditioning of the CENTRED problem:
+    # a perturbation eps*|Y| of the data moves the slopes by eps*|Y|/spread ~ eps*(1 + |centre|/spread)*|A|
+    EPS = 2.0 ** -52
+    stencil = [(0, 0), (-1, 0), (0, -1), (1, 0), (0, 1)]
+    for centre in (0, 1000, 70000, 10**6, 10**7, 10**9):
+        for spread in (F(1, 1024), F(1, 32), F(1), F(32), F(1024)):
+            for rep in range(R.pick(4, 24)):
+                cx, cy = rng.choice([-1, 1]) * (centre + rng.randint(0, 50)), rng.choice([-1, 1]) * (centre + rng.randint(0, 50))
+                if rng.random() < 0.5:
+                    offs = stencil
+                else:
+                    offs = set()
+                    while len(offs) < rng.randint(3, 8):
+                        offs.add((rng.randint(-4, 4), rng.randint(-4, 4)))
+                    offs = sorted(offs)
+                    (x0, y0), (x1, y1) = offs[0], offs[1]
+                    if all((px - x0) * (y1 - y0) == (py - y0) * (x1 - x0) for px, py in offs):
+                        continue
+                X = [(F(cx) + spread * dx, F(cy) + spread * dy) for dx, dy in offs]
+                Av = [F(rng.randint(-64, 64), 16) for _ in range(6)]
+                if Av[0] * Av[4] - Av[1] * Av[3] == 0:
+                    continue
+                Y = [(Av[0] * px + Av[1] * py + Av[2], Av[3] * px + Av[4] * py + Av[5]) for px, py in X]
+                if not all(isx(v) for q in X + Y for v in q):
+                    R.count("fitaff:cluster-skipped-inexact")
+                    continue
+                ratio = 1 + F(max(abs(cx), abs(cy))) / spread
+                amax = max(abs(v) for v in Av[:2] + Av[3:5]) + F(1, 16)
+                tol_lin = 256 * F(EPS) * ratio * amax
+                ymax = max(abs(v) for q in Y for v in q) + 1
+                case = {"X": [[float(a), float(b)] for a, b in X], "A": [float(v) for v in Av], "centre": [cx, cy], "spread": float(spread)}
+                try:
+                    Aout = M.affine_from_pts([xy_(float(px), float(py)) for px, py in X], [xy_(float(yx), float(yy)) for yx, yy in Y])
+                except Exception as ex:  # pylint: disable=broad-except
+                    R.oracle(False, "affine-fit-ill-conditioned-cluster", case, f"raised {ex!r}", sig="fitaff-cluster")
+                    continue
+                g = [F(v) for v in tuple(Aout)[:6]]
+                lin_err = max(abs(g[i] - Av[i]) for i in (0, 1, 3, 4))
+                # translation judged where it matters: the image of the cluster centre
+                pc = (g[0] * cx + g[1] * cy + g[2], g[3] * cx + g[4] * cy + g[5])
+                tc = (Av[0] * cx + Av[1] * cy + Av[2], Av[3] * cx + Av[4] * cy + Av[5])
+                c_err = max(abs(pc[0] - tc[0]), abs(pc[1] - tc[1]))
+                tol_c = 256 * F(EPS) * ymax + tol_lin * spread * 8
+                R.oracle(lin_err <= tol_lin and c_err <= tol_c, "affine-fit-ill-conditioned-cluster", case,
+                         f"affine_from_pts = {tuple(Aout)[:6]}; exact mapping {[float(v) for v in Av]}: linear part off by {float(lin_err):.3g} "
+                         f"(allowed {float(tol_lin):.3g}), image of the cluster centre off by {float(c_err):.3g} (allowed {float(tol_c):.3g})",
+                         sig=f"fitaff-cluster|c{centre}|s{float(spread):g}")
+    # the real call site: get_scale_at_point around far pixels, linear pixel-to-pixel transforms with Pythagorean columns
+    from odc.geo.overlap import get_scale_at_point
+    for centre in (0, 1000, 70000, 10**6, 10**7):
+        for rep in range(R.pick(6, 40)):
+            x_, y_, h = rng.choice(PYTH)
+            p_, q_ = F(rng.randint(1, 64), 16), F(rng.randint(1, 64), 16)
+            sgn = rng.choice([-1, 1])
+            Av = [x_ * p_, -sgn * y_ * q_, F(rng.randint(-1000, 1000)), y_ * p_, sgn * x_ * q_, F(rng.randint(-1000, 1000))]
+            Af = Affine(*[float(v) for v in Av])
+            pt = xy_(float(centre + rng.randint(0, 100)), float(centre + rng.randint(0, 100)))
+            r = rng.choice([None, None, 0.5, 4.0])
+            want = (h * p_, h * q_)
+            case = {"A": [float(v) for v in Av], "pt": [pt.x, pt.y], "r": r}
+            try:
+                sc = get_scale_at_point(pt, lambda pts: [xy_(*(Af * p.xy)) for p in pts], r)
+                ratio = 1 + F(max(abs(pt.x), abs(pt.y))) / F(1 if r is None else r)
+                tol = 1024 * F(EPS) * ratio * max(want) + F(1, 10**12)
+                ok = abs(F(sc.x) - want[0]) <= tol and abs(F(sc.y) - want[1]) <= tol
+                R.oracle(ok, "get-scale-at-point-wrong-at-far-pixel", case,
+                         f"get_scale_at_point = ({sc.x!r},{sc.y!r}); the transform is linear with scales ({float(want[0])},{float(want[1])}) "
+                         f"(allowed {float(tol):.3g})", sig=f"scale-at-point|c{centre}")
+            except Exception as ex:  # pylint: disable=broad-except
+                R.oracle(False, "get-scale-at-point-wrong-at-far-pixel", case, f"raised {ex!r}", sig="scale-at-point")
     for bad in ([(0, 0), (1, 1)], []):
         R.corr(f"c20 fitaff {list_s(bad, lambda q: f'{q[0]};{q[1]}')} {list_s(bad, lambda q: f'{q[0]};{q[1]}')}",
                lambda: aff_s(M.affine_from_pts([xy_(*q) for q in bad], [xy_(*q) for q in bad])), sig="fitaff|too-few")
@@ -1294,6 +1366,101 @@ def sec_poly(R: Run, M, Affine):
         R.corr(f"c20 denorm {list_s(cc, lambda q: frac_s(q[0]) + ';' + frac_s(q[1]))} {aff_in(Ab)}", fd, sig="denorm|spec")
 
 
+def sec_poly_routes(R: Run, M, Affine):
+    """every public evaluation route of Poly2d -- __call__ (scalars, arrays, Nx2), grid2d, and each of them after
+    with_input_transform -- on dyadic operands (every float operation exact), with len(x) != len(y); calls that raise
+    today (grid2d with a rotated / sheared input transform) are part of the correspondence as error kinds"""
+    rng = R.rng
+
+    def rnd_aff(kind: str):
+        if kind == "st":
+            return [F(rng.choice([-1, 1]) * rng.randint(1, 16), 8), F(0), F(rng.randint(-40, 40), 4),
+                    F(0), F(rng.choice([-1, 1]) * rng.randint(1, 16), 8), F(rng.randint(-40, 40), 4)]
+        if kind == "rot90":
+            return [F(0), F(rng.choice([-1, 1]) * rng.randint(1, 16), 8), F(rng.randint(-40, 40), 4),
+                    F(rng.choice([-1, 1]) * rng.randint(1, 16), 8), F(0), F(rng.randint(-40, 40), 4)]
+        return [F(rng.randint(-16, 16), 8), F(rng.choice([-1, 1]) * rng.randint(1, 16), 8), F(rng.randint(-40, 40), 4),
+                F(rng.choice([-1, 0, 1]) * rng.randint(1, 16), 8), F(rng.randint(-16, 16), 8), F(rng.randint(-40, 40), 4)]
+
+    def exact_value(cc, k, A, x, y):
+        xs, ys = A[0] * x + A[1] * y + A[2], A[3] * x + A[4] * y + A[5]
+        return tuple(sum(cc[i * k + j][c] * xs ** i * ys ** j for i in range(k) for j in range(k)) for c in (0, 1))
+
+    def all_exact(cc, k, A, xs, ys):
+        for x in xs:
+            for y in ys:
+                ok, full, short = _aff_apply_exact(A, x, y)
+                if not (ok and _horner_exact(cc, k, *full) and _horner_exact(cc, k, *short)):
+                    return False
+        return True
+
+    for _ in range(R.pick(1200, 12000)):
+        k = rng.choice([2, 2, 3])
+        cc = [(F(rng.randint(-8, 8), 4), F(rng.randint(-8, 8), 4)) for _ in range(k * k)]
+        ka, kb = rng.choice([("st", "st"), ("st", "rot"), ("st", "rot90"), ("rot", "st"), ("rot90", "rot90"), ("st", None), ("rot", None)])
+        A1 = rnd_aff(ka)
+        A2 = None if kb is None else rnd_aff(kb)
+        nx, ny = rng.choice([(1, 3), (2, 3), (3, 2), (4, 2), (3, 3), (2, 5), (5, 1)])
+        xs = [F(rng.randint(-16, 16), 4) for _ in range(nx)]
+        ys = [F(rng.randint(-16, 16), 4) for _ in range(ny)]
+        arr = np.asarray([[float(c[0]), float(c[1])] for c in cc], dtype="float64").reshape(k, k, 2)
+        cc_s = list_s(cc, lambda q: frac_s(q[0]) + ";" + frac_s(q[1]))
+        P = M.Poly2d(arr, Affine(*[float(v) for v in A1]))
+        if A2 is None:
+            Aeff, Pobj, okm = A1, P, True
+            head = f"{k} {cc_s} {aff_in(A1)}"
+            op = "polygrid"
+        else:
+            okm, Aeff = _aff_mul_exact(A1, A2)
+            Pobj = P.with_input_transform(Affine(*[float(v) for v in A2]))
+            head = f"{k} {cc_s} {aff_in(A1)} {aff_in(A2)}"
+            op = "polygridwith"
+        if not (okm and all_exact(cc, k, Aeff, xs, ys)):
+            R.count("polyroutes:skipped-inexact")
+            continue
+        separable = Aeff[1] == 0 and Aeff[3] == 0
+        tag = f"{ka}|{kb}|{'separable' if separable else 'rotated'}"
+        case = {"k": k, "cc": cc_s, "A": aff_in(A1), "A2": None if A2 is None else aff_in(A2),
+                "xs": list_s(xs, frac_s), "ys": list_s(ys, frac_s)}
+        xa, ya = np.asarray([float(v) for v in xs]), np.asarray([float(v) for v in ys])
+        got = []
+
+        def fg():
+            o = np.asarray(Pobj.grid2d(xa, ya))
+            got.append(o)
+            if o.shape != (2, nx, ny):
+                return f"SHAPE:{o.shape}"
+            return "[" + ",".join("[" + ",".join(f"{frac_s(float(o[0, i, j]))};{frac_s(float(o[1, i, j]))}" for j in range(ny)) + "]"
+                                  for i in range(nx)) + "]"
+
+        R.corr(f"c20 {op} {head} {list_s(xs, frac_s)} {list_s(ys, frac_s)}", fg, sig=f"{op}|{tag}")
+        want = [[exact_value(cc, k, Aeff, x, y) for y in ys] for x in xs]
+        if got:
+            # whenever grid2d returns, out[:, i, j] is the polynomial at (x[i], y[j]) -- also if a version of the code
+            # accepts transforms that are refused today
+            o = got[0]
+            ok = o.shape == (2, nx, ny) and all(
+                (F(float(o[0, i, j])), F(float(o[1, i, j]))) == want[i][j] for i in range(nx) for j in range(ny))
+            R.oracle(ok, "poly2d-grid2d-differs-from-pointwise-evaluation", case,
+                     f"grid2d returned shape {o.shape} (expected {(2, nx, ny)}), values {o.tolist()}; pointwise exact values "
+                     f"[i][j] = {[[tuple(map(float, w)) for w in row] for row in want]}", sig=f"grid2d-pointwise|{tag}")
+        # array routes of __call__
+        X = np.asarray([float(x) for x in xs for _ in ys])
+        Y = np.asarray([float(y) for _ in xs for y in ys])
+        flat = [w for row in want for w in row]
+        try:
+            o2 = np.asarray(Pobj(X, Y))
+            o3 = np.asarray(Pobj(np.stack([X, Y], axis=1)))
+            ok = (o2.shape == (2, nx * ny) and o3.shape == (nx * ny, 2)
+                  and all((F(float(o2[0, n])), F(float(o2[1, n]))) == flat[n] for n in range(nx * ny))
+                  and all((F(float(o3[n, 0])), F(float(o3[n, 1]))) == flat[n] for n in range(nx * ny)))
+            R.oracle(ok, "poly2d-array-call-differs-from-pointwise-evaluation", case,
+                     f"P(X, Y) shape {o2.shape} / P(Nx2) shape {o3.shape}: {o2.tolist()} / {o3.tolist()}; exact {[tuple(map(float, w)) for w in flat]}",
+                     sig=f"array-call|{tag}")
+        except Exception as ex:  # pylint: disable=broad-except
+            R.oracle(False, "poly2d-array-call-raises", case, repr(ex), sig="raises")
+
+
 def run(R: Run):
     M, Affine = _import()
     sec_split_int(R, M)
@@ -1306,6 +1473,7 @@ def run(R: Run):
     sec_fit(R, M, Affine)
     sec_bin(R, M)
     sec_poly(R, M, Affine)
+    sec_poly_routes(R, M, Affine)
     R.exhaustive = False
 
 
